@@ -164,6 +164,8 @@ func c17Init() {
 		{Name: ".", Blocks: []vgen.Block{b0, b1}, Files: []vgen.FileTok{{0, 3, "x"}, {3, 2, `b\040c`}, {1, 3, "span"}, {0, 0, "empty"}}},
 		{Name: `./s\040d`, Blocks: []vgen.Block{b2}, Files: []vgen.FileTok{{0, 4, "y"}, {1, 2, `f\134g`}}},
 		{Name: `./s\040d/t`, Blocks: []vgen.Block{b0}, Files: []vgen.FileTok{{0, 1, "d:e"}, {1, 2, `\303\251`}}},
+		// sibling whose name merely STARTS like "s d" (a subtree extraction must not pick it up)
+		{Name: `./s\040dd`, Blocks: []vgen.Block{b1}, Files: []vgen.FileTok{{0, 2, "n"}}},
 	})
 	b3 := vgen.Block{Variant: 3, Size: 2}
 	b4 := vgen.Block{Variant: 4, Size: 5}
@@ -171,8 +173,11 @@ func c17Init() {
 	b6 := vgen.Block{Variant: 6, Size: 2}
 	b := c17MakeColl(vgen.Manifest{
 		{Name: ".", Blocks: []vgen.Block{b3}, Files: []vgen.FileTok{{0, 2, "top"}}},
-		{Name: "./p", Blocks: []vgen.Block{b4, b5}, Files: []vgen.FileTok{{0, 5, `x\040y`}, {5, 1, "z"}, {2, 3, "w"}}},
+		{Name: "./p", Blocks: []vgen.Block{b4, b5}, Files: []vgen.FileTok{{0, 5, `x\040y`}, {5, 1, "z"}, {2, 3, "w"}, {1, 2, `x\040yz`}}},
 		{Name: "./p/q", Blocks: []vgen.Block{b6}, Files: []vgen.FileTok{{0, 2, "r"}}},
+		// siblings of the mounted subtree "/p" whose names start with "p" (prefix look-alikes)
+		{Name: "./pp", Blocks: []vgen.Block{b3}, Files: []vgen.FileTok{{0, 1, "o"}}},
+		{Name: "./p.b/q", Blocks: []vgen.Block{b6}, Files: []vgen.FileTok{{1, 1, "r"}}},
 	})
 	e := &c17Coll{text: "", pdh: "d41d8cd98f00b204e9800998ecf8427e+0", store: map[string][]byte{}, files: map[string][]byte{}, dirs: map[string]bool{}}
 	c17Colls[a.pdh], c17Colls[b.pdh], c17Colls[e.pdh] = a, b, e
